@@ -323,6 +323,15 @@ pub fn c09(rng: &mut Rng, thorough: bool) -> Scenario {
     ops.push(Op::Open(cfg.clone()));
     let steps = rng.range(4, if thorough { 30 } else { 12 });
     let mut depth = 0usize; // generator's guess of log length
+    if rng.chance(1, 3) {
+        // multi-page values (more than 15 overflow pages) that later plain writes overwrite
+        let mut b: Vec<(Key, Acc)> = (0..rng.range(1, 3)).map(|_| (kg.key(rng), Acc::Write(Some((*rng.pick(&[61381usize, 65472, 65536, 70000, 130000]), rng.next() % 1000))))).collect();
+        b.sort_by(|a, b| a.0.cmp(&b.0));
+        b.dedup_by(|a, b| a.0 == b.0);
+        live.apply(&b);
+        ops.extend(commit_ops(ids.s(), ids.c(), b, false));
+        depth = 1;
+    }
     for _ in 0..steps {
         match rng.below(10) {
             0..=5 => {
